@@ -337,6 +337,11 @@ def r4_sites(ctx):
             # callee was spliced in / split up, the value and its review are the same
             r = reviewed[[k for k in vanished_all[cls] if k.split("|")[0] == skey.split("|")[0]][0]]
             ok, msg = True, ""
+        elif (cls in RISKY or prov.startswith(RISKY)) and [k for k in vanished_all.get(cls, []) if k.split("|")[0] not in prog.fns and k.split("|")[0] not in getattr(prog, "helper_bodies", {})]:
+            # the function that held the reviewed site does not exist any more: its code (and the reviewed value) lives
+            # in its former callers now
+            r = reviewed[[k for k in vanished_all[cls] if k.split("|")[0] not in prog.fns][0]]
+            ok, msg = True, ""
         elif (cls in RISKY or prov.startswith(RISKY)) and vanished.get(cls):
             k_old = vanished[cls].pop(0)        # the reviewed site moved (its function was renamed / split / merged)
             r = reviewed[k_old]
